@@ -59,6 +59,17 @@ def make_inputs(seed, n_family, n_mut, n_raw, with_android=True, size=1.0, featu
         cases.append(dict(id='m%d' % i, path='mut/M%d.java' % i, data=m.encode('utf-8', errors='surrogatepass') if False else m.encode('utf-8', errors='replace'), origin='mutant'))
     for i in range(n_raw):
         cases.append(dict(id='r%d' % i, path='raw/R%d.java' % i, data=javagen.random_bytes(rng), origin='raw'))
+    # minimal tokens inserted into / substituted in family files (a share of the mutant budget)
+    k = 0
+    for src in fam[:max(1, n_mut // 150)] if n_mut else []:
+        for v in javagen.tiny_variants(src.decode('utf-8'), rng):
+            cases.append(dict(id='t%d' % k, path='tiny/T%d.java' % k, data=v.encode('utf-8', errors='replace'), origin='mutant'))
+            k += 1
+    # same-kind constructs at many (row, column) positions of one file
+    if n_family:
+        for kind in javagen.GRID_KINDS:
+            gtext, gtruth = javagen.grid_unit(kind)
+            cases.append(dict(id='g_%s' % kind, path='grid/Grid_%s.java' % kind, data=gtext.encode(), origin='family', truth=gtruth, style={}))
     return cases
 
 
